@@ -7,6 +7,7 @@ discretisations, not units).  (b) absolute SI oracles on the recorded dimensionl
 of every run, so that a factor lost in both twins is still seen: flux per mesh triangle for
 uniform fields, terminal flux density, screening prefactor."""
 import copy
+import os
 
 import numpy as np
 from ..common import aeq  # noqa: E402
@@ -102,6 +103,9 @@ def gen(seed, idx, tier):
             B0 = scn["drive"]["field"].get("B") or (0.3 * scen.FIELD_FACTOR[fu0])
             scn["drive"]["field"] = {"kind": "ramp", "B": B0, "tmin": 0.0, "tmax": scn["options"]["solve_time"], "initial": rnd.choice([1.0, 0.0]), "final": 1.0 + rel * steps}
             scn["meta"]["slow_rel"] = rel
+    if rnd.random() < 0.35:
+        scn["observer"] = {"output": {"path": "out.h5", "absolute": True}}  # a persistent file: post-run extraction
+        scn["options"]["save_every"] = rnd.choice([1, 2, 5])
     scn["twin_units"] = [lu, fu, cu]
     scn["shared_options"] = rnd.random() < 0.3
     # the same physical displacement (stated in units of xi) of the meshed device in both unit systems
@@ -357,6 +361,27 @@ def run(scn):
                         V.append(Violation("post-processing-raised", f"Solution post-processing raised {type(e).__name__}: {str(e)[:100]}", **where))
                         outs = None
                         break
+                    # voltages extracted after the run at probe positions given in physical length units
+                    # (DynamicsData.from_solution): the sites they refer to are the physically closest ones
+                    if getattr(h_.solution, "path", None) and os.path.exists(h_.solution.path) and not V and bool(np.all(h_.device.contains_points(pts))):
+                        from tdgl.solution.data import DynamicsData
+
+                        try:
+                            dyn_ = DynamicsData.from_solution(h_.solution.path, probe_points=pts)
+                        except Exception as e:
+                            tb_ = __import__("traceback").extract_tb(e.__traceback__)
+                            if not any("/tdgl/" in f_.filename for f_ in tb_):
+                                raise
+                            V.append(Violation("post-processing-raised", f"DynamicsData.from_solution raised {type(e).__name__}: {str(e)[:100]}", **where))
+                            break
+                        sites_phys = np.asarray(h_.device.mesh.sites) * (xi_m / si.PREFIX[c_.lu])
+                        near = [int(np.argmin(np.sum((sites_phys - p_) ** 2, axis=1))) for p_ in pts]
+                        frs_ = [fr for fr in h_.frames if fr["completed"]]
+                        want_mu = np.array([[float(np.asarray(fr["data"]["mu"])[i_]) for fr in frs_] for i_ in near])
+                        got_mu = np.asarray(dyn_.mu, dtype=float)
+                        if got_mu.shape != want_mu.shape or not aeq(got_mu, want_mu):
+                            V.append(Violation("probe-extraction", f"DynamicsData.from_solution at probe positions given in {c_.lu}: the potentials returned are not those of the mesh sites physically closest to the requested positions", length_units=c_.lu, **where))
+                            break
                     outs.append((Ka, B1, B2, Kb, Av))
                     refA = max(float(np.max(np.abs(Av), initial=0.0)), float(np.max(np.abs(An), initial=0.0)), si.MU0 * K_peak * xi_m) + 1e-300
                     if float(np.max(np.abs(Av - An))) > 1e-9 * refA:
